@@ -240,7 +240,7 @@ theorem while_point {r f r' : Relation} {g g' : DG.Graph} (wr : r.WF)
       · rw [cden]
         rw [den_outside c (e' ▸ hxy), wCorr_idS]
     constructor
-    · congr 2
+    · refine congrArg (fun m => some (i1, m)) ?_
       exact matOf_congr (fun x _ y _ => (heq x y).symm)
     · intro x y
       rw [heq]
